@@ -36,6 +36,8 @@ def _params(wit):
         p["T"] = wit["env"]["T"]
     elif wit.get("T") == 0:
         p["T"] = 0
+    for k, v in (wit.get("xc_params") or {}).items():
+        p[k] = tuple(v) if isinstance(v, list) else v
     return p
 
 
